@@ -64,6 +64,16 @@ class PROP(Prop):
                             bytes([0x81, 2]), bytes([0x98, 1]), bytes([0xAB, 4])]
                 if proto == "tcp":
                     foreign += [bytes([0x41, 1, 2, 3]), bytes([0x2B, 0x0E]), bytes([0xFF, 1])]
+                # the reply of the matching kind, complete and well-formed, followed by surplus bytes inside the same frame (Modbus TCP: the
+                # MBAP length covers them; RTU framing cannot deliver such a PDU): a result, never a panic, never success
+                if proto == "tcp":
+                    for req in typed_reqs:
+                        own = mb.spec_rsp_pdu(mb.matching_rsp(rng, req))
+                        for extra in (b"\x00", b"\xbe\xef", bytes(5)):
+                            slave = rng.randrange(1, 248)
+                            fr = cligen.frame(proto, 0, slave, own + extra)
+                            cs.append(Case(cligen.cli_line(proto, slave, [cligen.call_op(req, R="d" + fr.hex(), typed=True)]),
+                                           {"foreign": True, "req": mb.show_req(req), "pdu": (own + extra).hex(), "split": 0}, prof))
                 for req in typed_reqs:
                     for pdu in foreign:
                         if pdu[0] == mb.req_fc(req):
